@@ -332,136 +332,6 @@ def rule_drop(ctx):
     ctx.floor(rid + ".result-producing-calls", 500)
 
 
-def rule_partial(ctx):
-    rid = "R-PARTIAL"
-    ctx.rule(rid, "in the pass-group tasks of render_modular / render_vardct an error is recorded in the shared result only on the "
-                  "`allow_partial == false` edge: while a frame is still loading, any decode error of a partially available group "
-                  "(not only end-of-data: truncated entropy streams also fail validation checks) must leave the frame 'in progress'")
-    from .c07 import slot_guard_ty
-    from ..mirutil import access_path
-    n = 0
-    for f in ctx.prog.all_fns(["jxl_render"]):
-        if f.kind != "Closure":
-            continue
-        if not (any("allow_partial" in c[0] for c in f.captures) or any(l[1] == "allow_partial" for l in f.locals)):
-            continue
-        if not any(slot_guard_ty(l[0]) for l in f.locals):
-            continue
-        defs = Defs(f)
-        ctx.seen(f)
-        stores = []
-        for b, blk in enumerate(f.blocks):
-            if f.is_cleanup(b):
-                continue
-            for st in blk[0]:
-                if st[0] == "=" and len(st[1]) == 2 and st[1][1] == "*":
-                    ap = access_path(f, defs, st[1][0], stop=lambda x: slot_guard_ty(f.local_ty(x)))
-                    if ap and not ap[1] and slot_guard_ty(f.local_ty(ap[0])) and from_group_decode(f, defs, st):
-                        stores.append((b, st))
-        if not stores:
-            continue
-        # edges on which allow_partial is known false
-        false_edges = set()
-        for b in range(len(f.blocks)):
-            t = f.term(b)
-            if t[0] != "switch":
-                continue
-            l = op_local(t[1])
-            neg = False
-            ok = False
-            seen = set()
-            while l is not None and l not in seen:
-                seen.add(l)
-                d = defs.single(l)
-                if not d or d[2] != "assign":
-                    break
-                rv = d[3][2]
-                if rv[0] == "un" and rv[1] == "Not":
-                    neg = not neg
-                    l = op_local(rv[2])
-                    continue
-                if rv[0] == "use":
-                    p = op_place(rv[1])
-                    if p is not None and any(isinstance(e, list) and e[0] == "." and e[2] and "allow_partial" in e[2] for e in p[1:]):
-                        ok = True
-                        break
-                    if p is not None and len(p) == 1 and f.local_name(p[0]) == "allow_partial":
-                        ok = True
-                        break
-                    l = p[0] if p is not None and len(p) == 1 else None
-                    continue
-                break
-            if not ok:
-                continue
-            for v, x in t[2]:
-                if v == "0" and not neg:
-                    false_edges.add((b, x, v))
-            if neg and any(v == "0" for v, _ in t[2]):
-                false_edges.add((b, t[3], "otherwise"))
-        for b, st in stores:
-            n += 1
-            ctx.count(rid + ".stores")
-            p = find_path_edges(f, [0], lambda x: x == b, avoid_edge=lambda x, s, lab: (x, s, lab) in false_edges)
-            if false_edges and p is None:
-                ctx.ok(rid, "store-only-when-complete:%s" % f.path, "error recorded only behind allow_partial == false", nontrivial=True, fn=f)
-            else:
-                ctx.bad(rid, "%s|error-recorded-while-loading" % f.path,
-                        "a pass-group error can be recorded while allow_partial is true: rendering the loading frame at a prefix that cuts "
-                        "a group returns a hard error instead of a partial image / need-more-data", fn=f, pos=st[3], path=p)
-    ctx.floor(rid + ".stores", 2)
-
-
-def from_group_decode(f, defs, st):
-    """the stored value derives (moves, aggregates, payload extraction, conversion calls) from the result of a decode_pass_group* call"""
-    rv = st[2]
-    start = []
-    if rv[0] == "use":
-        p = op_place(rv[1])
-        if p is not None:
-            start.append(p[0])
-    elif rv[0] == "agg":
-        for o in rv[2]:
-            p = op_place(o)
-            if p is not None:
-                start.append(p[0])
-    seen = set()
-    work = list(start)
-    while work:
-        x = work.pop()
-        if x in seen or len(seen) > 200:
-            continue
-        seen.add(x)
-        for d in defs.of(x):
-            if d[2] in ("assign", "partial"):
-                r2 = d[3][2] if d[3][0] == "=" else None
-                if r2 is None:
-                    continue
-                ops = []
-                if r2[0] in ("use", "repeat"):
-                    ops = [r2[1]]
-                elif r2[0] == "cast":
-                    ops = [r2[2]]
-                elif r2[0] == "agg":
-                    ops = r2[2]
-                elif r2[0] == "ref":
-                    work.append(r2[2][0])
-                for o in ops:
-                    p = op_place(o)
-                    if p is not None:
-                        work.append(p[0])
-            elif d[2] == "call":
-                c = callee(d[3])
-                if c and "decode_pass_group" in c["fn"]:
-                    return True
-                nm = c["fn"].split("::")[-1] if c else ""
-                if nm in ("into", "from", "map_err", "branch", "from_residual", "err", "unwrap_err", "clone"):
-                    for a in d[3][2]:
-                        p = op_place(a)
-                        if p is not None:
-                            work.append(p[0])
-    return False
-
-
 def main(pid, tier, repo=None):
     configs = ("workspace",) if tier == "quick" else ("workspace", "norayon")
     ctx = Ctx(pid, tier, configs=configs, repo=repo)
@@ -470,7 +340,6 @@ def main(pid, tier, repo=None):
         rule_forward(ctx)
         rule_sites(ctx)
         rule_drop(ctx)
-        rule_partial(ctx)
     ctx.not_decided("that a partial section decodes to a correct partial image; allow_partial value computations; equality of the final result")
     return ctx.finish(
         "Classification half of the property, for every prefix at once: (1) the error-type graph is built from the ADT definitions and "
